@@ -39,7 +39,8 @@ namespace Basis
 theorem makePeriodicKnots_size (b : Basis K) (k : ℕ) (hk : k + 2 ≤ b.order)
     (hlong : 2 * b.order + k ≤ b.knots.size) : (b.makePeriodicKnots k).size = b.knots.size := by
   unfold makePeriodicKnots
-  simp only [Array.size_append, Array.size_map, Array.size_extract, Array.size_replicate]
+  simp only [if_neg (show ¬ b.order - 1 = 0 by omega), Array.size_append, Array.size_map, Array.size_extract,
+    Array.size_replicate]
   omega
 
 /-- The basis a successful `Basis.makePeriodic` returns. -/
